@@ -11,6 +11,7 @@ package main
 
 import (
 	"crypto/ecdsa"
+	"encoding/hex"
 	"encoding/json"
 	"flag"
 	"fmt"
@@ -19,6 +20,7 @@ import (
 	"math/rand"
 	"os"
 	"path/filepath"
+	"sort"
 	"strings"
 
 	"github.com/ethereum/go-ethereum/rlp"
@@ -27,6 +29,7 @@ import (
 	"github.com/vechain/thor/v2/builtin"
 	"github.com/vechain/thor/v2/chain"
 	"github.com/vechain/thor/v2/consensus/upgrade/galactica"
+	"github.com/vechain/thor/v2/genesis"
 	"github.com/vechain/thor/v2/state"
 	"github.com/vechain/thor/v2/thor"
 	"github.com/vechain/thor/v2/trie"
@@ -39,6 +42,13 @@ import (
 func must(err error) {
 	if err != nil {
 		panic(err)
+	}
+}
+
+// ioMust: trouble with the harness' own files or with decoding what it just read is infrastructure (exit 3)
+func ioMust(err error) {
+	if err != nil {
+		harnessError("i/o: %v", err)
 	}
 }
 
@@ -59,7 +69,8 @@ func limbs(v *big.Int) []int { return trace.Limbs(v) }
 type totals struct {
 	vet, vtho *big.Int
 	leaves    int
-	exists    map[thor.Bytes32]bool // hashed account keys present
+	exists    map[thor.Bytes32]bool     // hashed account keys present
+	energy    map[thor.Bytes32]*big.Int // energy at t per hashed account key (reference growth formula)
 }
 
 func rawSlot(st *state.State, addr thor.Address, key thor.Bytes32) []byte {
@@ -75,7 +86,7 @@ func stopTime(st *state.State) uint64 {
 		return math.MaxUint64
 	}
 	var t uint64
-	must(rlp.DecodeBytes(raw, &t))
+	ioMust(rlp.DecodeBytes(raw, &t))
 	if t == 0 {
 		return math.MaxUint64
 	}
@@ -86,7 +97,7 @@ func issued(st *state.State) *big.Int {
 	raw := rawSlot(st, builtin.Energy.Address, thor.Blake2b([]byte("issued")))
 	v := new(big.Int)
 	if len(raw) > 0 {
-		must(rlp.DecodeBytes(raw, &v))
+		ioMust(rlp.DecodeBytes(raw, &v))
 	}
 	return v
 }
@@ -112,10 +123,12 @@ func refEnergy(a *state.Account, t, stop uint64) *big.Int {
 func sumState(n *sim.Net, root trie.Root, t uint64) totals {
 	st := n.God.Stater.NewState(root)
 	stop := stopTime(st)
-	tot := totals{vet: new(big.Int), vtho: new(big.Int), exists: map[thor.Bytes32]bool{}}
+	tot := totals{vet: new(big.Int), vtho: new(big.Int), exists: map[thor.Bytes32]bool{}, energy: map[thor.Bytes32]*big.Int{}}
 	must(sim.WalkAccounts(n.God.DB, root, func(l *sim.Leaf) error {
 		tot.vet.Add(tot.vet, l.Acc.Balance)
-		tot.vtho.Add(tot.vtho, refEnergy(&l.Acc, t, stop))
+		e := refEnergy(&l.Acc, t, stop)
+		tot.vtho.Add(tot.vtho, e)
+		tot.energy[l.Key] = e
 		tot.leaves++
 		tot.exists[l.Key] = true
 		return nil
@@ -137,6 +150,7 @@ type gen struct {
 	UV       *thor.Address // U instance holding VET but never given VTHO, self-destructed to the tx origin
 	US       *thor.Address // "sleeper" U instance: holds VET, untouched from block 1 until well after HAYABUSA, then forwards VET
 	stats    map[string]int
+	limit    uint64 // gas limit of the block being generated
 	gasLimit uint64
 }
 
@@ -240,6 +254,39 @@ func w(n int64) *big.Int { return big.NewInt(n) }
 
 // Dev roles: 0..2 validators (0 is also the executor), 3 deployer/master, 4 F3 caller, 5 credit user, 6 sponsor,
 // 7 delegated-fee origin (fees paid by 3) / extra staker, 8 "delegator contract" stand-in (PoS), 9 spare.
+// The re-entrant double SELFDESTRUCT pair (genesis contracts):
+//
+//	A: no calldata -> CALL B, then SELFDESTRUCT(R);  with calldata -> SELFDESTRUCT(R) at once
+//	B: CALL A with one byte of calldata (A destructs while its outer frame is still running), send 1000 wei VET to A,
+//	   energy.transfer(A, 7000): A is re-funded; back in A's outer frame the second SELFDESTRUCT must hand these over too
+var (
+	addrDA = thor.BytesToAddress([]byte("double-suicide-A"))
+	addrDB = thor.BytesToAddress([]byte("double-suicide-B"))
+)
+
+func doubleSuicideCode(receiver thor.Address) (a, b []byte) {
+	a = sim.Asm(fmt.Sprintf(" CALLDATASIZE @kill JUMPI 0 0 0 0 0 0x%x GAS CALL POP kill: 0x%x SELFDESTRUCT ", addrDB[:], receiver[:]))
+	b = sim.Asm(fmt.Sprintf(" 0 0 1 0 0 0x%x GAS CALL POP 0 0 0 0 1000 0x%x GAS CALL POP ", addrDA[:], addrDA[:]) +
+		sim.EnergyTransferSelector + fmt.Sprintf(" 224 SHL 0 MSTORE 0x%x 4 MSTORE 7000 36 MSTORE 0 0 68 0 0 0x%x GAS CALL POP STOP ",
+		addrDA[:], builtin.Energy.Address[:]))
+	return
+}
+
+// mine searches a nonce that gives the legacy tx proved work worth at least minGas gas (1000 work units per gas).
+func (g *gen) mine(parent *chain.BlockSummary, origin int, to thor.Address, val *big.Int, minGas int64) *tx.Transaction {
+	refID, err := g.net.God.Repo.NewChain(parent.Header.ID()).GetBlockID(parent.Header.Number() - 1)
+	must(err)
+	b := tx.NewBuilder(tx.TypeLegacy).ChainTag(g.tag).BlockRef(tx.NewBlockRefFromID(refID)).Expiration(1000).Gas(100_000).
+		GasPriceCoef(uint8(g.rng.Intn(256))).Clause(tx.NewClause(&to).WithValue(val))
+	eval := b.Build().EvaluateWork(g.addr(origin))
+	need := new(big.Int).Mul(big.NewInt(minGas), big.NewInt(1000))
+	nonce := g.rng.Uint64()
+	for eval(nonce).Cmp(need) < 0 {
+		nonce++
+	}
+	return tx.MustSign(b.Nonce(nonce).Build(), g.key(origin))
+}
+
 // sleeper i: a key-less account that receives VET before HAYABUSA and is not touched again until well after it
 func sleeper(i int) thor.Address {
 	return thor.BytesToAddress(thor.Blake2b([]byte(fmt.Sprint("sleeper", i))).Bytes())
@@ -247,7 +294,7 @@ func sleeper(i int) thor.Address {
 
 func (g *gen) blockTxs(parent *chain.BlockSummary, step int, full bool) []*tx.Transaction {
 	var txs []*tx.Transaction
-	add := func(kind string, t *tx.Transaction) { txs = append(txs, t); g.stats[kind]++ }
+	add := func(kind string, ts ...*tx.Transaction) { txs = append(txs, ts...); g.stats[kind] += len(ts) }
 	none := txOpt{delegator: -1}
 	num := parent.Header.Number() + 1
 	switch step {
@@ -278,8 +325,38 @@ func (g *gen) blockTxs(parent *chain.BlockSummary, step int, full bool) []*tx.Tr
 		add("f3", g.mk(parent, 4, none, tx.NewClause(g.SDS).WithValue(w(1_000_000+int64(g.rng.Intn(1000))))))
 		return txs
 	}
+	// ---- blocks with exactly one purpose ------------------------------------------------------------------------
+	switch {
+	case step == 14 && full:
+		// gas used == gas target EXACTLY (limit not divisible by 100): looping calls burn all their gas
+		target := g.limit * 75 / 100
+		per := target / 4
+		for i := 0; i < 4; i++ {
+			gas := per
+			if i == 3 {
+				gas = target - 3*per
+			}
+			add("burn-exact", g.mk(parent, 3+i, txOpt{gas: gas, delegator: -1}, call(*g.U, sim.UCall(sim.OpLoop, w(int64(900+i)), w(1)))))
+		}
+		return txs
+	case step == 18:
+		// the executor changes the reward ratio: alone in its block, so that every tx of a block sees one value
+		add("set-ratio", g.mk(parent, 0, none, call(builtin.Params.Address, paramsData("set", thor.KeyRewardRatio, new(big.Int).Mul(big.NewInt(4), big.NewInt(1e17))))))
+		return txs
+	case step == 24:
+		add("set-baseprice", g.mk(parent, 0, none, call(builtin.Params.Address, paramsData("set", thor.KeyLegacyTxBaseGasPrice, big.NewInt(2e15)))))
+		return txs
+	}
 	// ---- deterministic shapes (every profile) -------------------------------------------------------------------
 	proposer := step % 3
+	if step == 9 {
+		// re-entrant double SELFDESTRUCT inside one clause
+		add("double-suicide", g.mk(parent, 4, txOpt{gas: 400_000, delegator: -1}, tx.NewClause(&addrDA)))
+	}
+	if step == 9 || step == 19 || step == 26 {
+		// a legacy tx with PROVED WORK (the nonce is mined against a real block reference)
+		add("mined", g.mine(parent, 3+step%4, g.addr(step%10), w(int64(1000+step)), 20))
+	}
 	switch {
 	case step == 4:
 		// sleepers receive VET before any fork of the profile and are then left alone
@@ -319,18 +396,36 @@ func (g *gen) blockTxs(parent *chain.BlockSummary, step int, full bool) []*tx.Tr
 		add("sd-other", g.mk(parent, 9, txOpt{delegator: -1}, call(*g.U2, sim.UCall(sim.OpDestroy, sim.AddrWord(g.addr(8))))))
 		g.U2 = nil
 	}
-	if g.prof == "pos" || g.prof == "hayabusa" {
+	if g.prof == "pos" || g.prof == "hayabusa" || g.prof == "evict" {
 		// deterministic: name dev 8 as the "delegator contract", then delegate to every validator so that the block reward
 		// is split between validator and delegators once the delegations lock (next staking period)
 		gas := txOpt{gas: 800_000, delegator: -1}
 		if step == 4 {
 			add("setDelegator", g.mk(parent, 0, gas, call(builtin.Params.Address, paramsData("set", thor.KeyDelegatorContractAddress, new(big.Int).SetBytes(g.addr(8).Bytes())))))
 		}
+		at := func(pos, hay int) bool {
+			return (g.prof == "pos" && step == pos) || (g.prof == "hayabusa" && step == hay)
+		}
+		switch {
+		case at(13, 25):
+			add("signalExit", g.mk(parent, 2, gas, call(builtin.Staker.Address, stakerData("signalExit", g.addr(2)))))
+		case at(15, 27):
+			add("signalDelegationExit", g.mk(parent, 8, gas, call(builtin.Staker.Address, stakerData("signalDelegationExit", big.NewInt(1)))),
+				g.mk(parent, 8, gas, call(builtin.Staker.Address, stakerData("signalDelegationExit", big.NewInt(3)))))
+		case at(28, 41), at(34, 44):
+			add("withdrawDelegation", g.mk(parent, 8, gas, call(builtin.Staker.Address, stakerData("withdrawDelegation", big.NewInt(1)))),
+				g.mk(parent, 8, gas, call(builtin.Staker.Address, stakerData("withdrawDelegation", big.NewInt(3)))))
+			add("withdrawStake-exited", g.mk(parent, 2, gas, call(builtin.Staker.Address, stakerData("withdrawStake", g.addr(2)))))
+		}
+		if g.prof == "evict" && step >= 14 && step%6 == 2 {
+			// the validator that never produces gets evicted; later its stake becomes withdrawable
+			add("withdrawStake-evicted", g.mk(parent, 2, gas, call(builtin.Staker.Address, stakerData("withdrawStake", g.addr(2)))))
+		}
 		if (g.prof == "pos" && step == 12) || (g.prof == "hayabusa" && step == 20) {
 			// validator 1 names the delegator contract stand-in as its beneficiary: one address in two roles
 			add("setBeneficiary", g.mk(parent, 1, gas, call(builtin.Staker.Address, stakerData("setBeneficiary", g.addr(1), g.addr(8)))))
 		}
-		if (g.prof == "pos" && step == 5) || (g.prof == "hayabusa" && step == 11) {
+		if ((g.prof == "pos" || g.prof == "evict") && step == 5) || (g.prof == "hayabusa" && step == 11) {
 			for v := 0; v < 3; v++ {
 				add("addDelegation", g.mk(parent, 8, gas, call(builtin.Staker.Address, stakerData("addDelegation", g.addr(v), uint8(100+50*v))).WithValue(vet(int64(1_000_000*(v+1))))))
 			}
@@ -422,7 +517,7 @@ func (g *gen) blockTxs(parent *chain.BlockSummary, step int, full bool) []*tx.Tr
 				g.U2 = nil
 			}
 		default:
-			if g.prof == "pos" || g.prof == "hayabusa" {
+			if g.prof == "pos" || g.prof == "hayabusa" || g.prof == "evict" {
 				txs = append(txs, g.stakingTx(parent, num)...)
 			} else {
 				add("vet", g.mk(parent, who, none, tx.NewClause(ptr(g.addr(g.rng.Intn(10)))).WithValue(val)))
@@ -504,7 +599,9 @@ func (r *rec) observe(parent *chain.BlockSummary, blk *block.Block, receipts tx.
 
 	legacyBase, err := builtin.Params.Native(preSt).Get(thor.KeyLegacyTxBaseGasPrice)
 	must(err)
-	ratio, err := builtin.Params.Native(preSt).Get(thor.KeyRewardRatio)
+	// the reward ratio is read when a tx is finalized, i.e. AFTER its own clauses: the tx that changes it (alone in its
+	// block) is already rewarded at the new ratio; the base gas price is read before execution (gas purchase)
+	ratio, err := builtin.Params.Native(postSt).Get(thor.KeyRewardRatio)
 	must(err)
 	gal := h.Number() >= n.FC.GALACTICA
 	burnVET, burnVTHO := new(big.Int), new(big.Int)
@@ -514,15 +611,27 @@ func (r *rec) observe(parent *chain.BlockSummary, blk *block.Block, receipts tx.
 	if len(txs) != len(receipts) {
 		harnessError("block %d: %d txs, %d receipts", h.Number(), len(txs), len(receipts))
 	}
-	reverted := 0
+	reverted, mined := 0, 0
+	// energy flows seen in the receipts: Transfer events of the energy contract (clause-level transfers, transferFrom,
+	// self-destruct hand-over), fees per payer, rewards
+	evIn, evOut, paidBy := map[thor.Address]*big.Int{}, map[thor.Address]*big.Int{}, map[thor.Address]*big.Int{}
+	bump := func(m map[thor.Address]*big.Int, a thor.Address, v *big.Int) {
+		if m[a] == nil {
+			m[a] = new(big.Int)
+		}
+		m[a].Add(m[a], v)
+	}
+	rewardSum := new(big.Int)
 	for i, rc := range receipts {
 		trx := txs[i]
+		bump(paidBy, rc.GasPayer, rc.Paid)
+		rewardSum.Add(rewardSum, rc.Reward)
 		pw, err := trx.ProvedWork(h.Number()-1, n.God.Repo.NewChain(parent.Header.ID()).GetBlockID)
 		must(err)
 		if pw.Sign() != 0 {
-			harnessError("generated tx carries proved work; the fee rules of the spec assume none")
+			mined++
 		}
-		f := map[string]any{"legacyBase": limbs(legacyBase), "ratio": limbs(ratio), "gal": gal, "baseFee": []int{}}
+		f := map[string]any{"legacyBase": limbs(legacyBase), "ratio": limbs(ratio), "gal": gal, "baseFee": []int{}, "work": limbs(pw), "gas": trx.Gas()}
 		if h.BaseFee() != nil {
 			f["baseFee"] = limbs(h.BaseFee())
 		}
@@ -543,6 +652,11 @@ func (r *rec) observe(parent *chain.BlockSummary, blk *block.Block, receipts tx.
 				}
 			}
 			for _, ev := range o.Events {
+				if ev.Address == builtin.Energy.Address && len(ev.Topics) == 3 && ev.Topics[0] == energyTransferTopic {
+					amt := new(big.Int).SetBytes(ev.Data)
+					bump(evOut, thor.BytesToAddress(ev.Topics[1][:]), amt)
+					bump(evIn, thor.BytesToAddress(ev.Topics[2][:]), amt)
+				}
 				if ev.Address == builtin.Energy.Address && len(ev.Topics) == 3 && ev.Topics[0] == energyTransferTopic &&
 					ev.Topics[1] == ev.Topics[2] && gone(thor.BytesToAddress(ev.Topics[1][:])) {
 					burnVTHO.Add(burnVTHO, new(big.Int).SetBytes(ev.Data))
@@ -560,6 +674,48 @@ func (r *rec) observe(parent *chain.BlockSummary, blk *block.Block, receipts tx.
 	if signer, err := h.Signer(); err == nil && pos {
 		split, _ = builtin.Staker.Native(postSt).HasDelegations(signer)
 	}
+	// who was charged, who was credited: energy delta (both states evaluated at t) of every gas payer, the beneficiary and
+	// the delegator contract stand-in, next to the flows the receipts show for that account
+	pct, err := builtin.Params.Native(postSt).Get(thor.KeyValidatorRewardPercentage)
+	must(err)
+	if pct.Sign() == 0 {
+		pct = big.NewInt(int64(thor.InitialValidatorRewardPercentage))
+	}
+	dc, err := builtin.Params.Native(postSt).Get(thor.KeyDelegatorContractAddress)
+	must(err)
+	delegAddr := thor.BytesToAddress(dc.Bytes())
+	interesting := map[thor.Address]bool{h.Beneficiary(): true}
+	if !delegAddr.IsZero() {
+		interesting[delegAddr] = true
+	}
+	for a := range paidBy {
+		interesting[a] = true
+	}
+	var addrs []thor.Address
+	for a := range interesting {
+		addrs = append(addrs, a)
+	}
+	sort.Slice(addrs, func(i, j int) bool { return string(addrs[i][:]) < string(addrs[j][:]) })
+	zero := new(big.Int)
+	get := func(m map[thor.Address]*big.Int, a thor.Address) *big.Int {
+		if m[a] == nil {
+			return zero
+		}
+		return m[a]
+	}
+	enAt := func(t totals, a thor.Address) *big.Int {
+		if e := t.energy[thor.Blake2b(a[:])]; e != nil {
+			return e
+		}
+		return zero
+	}
+	var flows []map[string]any
+	for _, a := range addrs {
+		d := new(big.Int).Sub(enAt(post, a), enAt(pre, a))
+		fl := map[string]any{"delta": limbs(new(big.Int).Abs(d)), "deltaNeg": d.Sign() < 0, "evIn": limbs(get(evIn, a)), "evOut": limbs(get(evOut, a)),
+			"paid": limbs(get(paidBy, a)), "benef": a == h.Beneficiary(), "deleg": a == delegAddr, "payer": paidBy[a] != nil}
+		flows = append(flows, fl)
+	}
 	// the energy contract's own bookkeeping, evaluated at this block's time on the post-state
 	en := builtin.Energy.Native(postSt, t)
 	supply, err := en.TotalSupply()
@@ -572,7 +728,8 @@ func (r *rec) observe(parent *chain.BlockSummary, blk *block.Block, receipts tx.
 		"issued": limbs(new(big.Int).Sub(issued(postSt), issued(preSt))), "staked": staked, "curve": limbs(curve),
 		"hdr": hdrFields(h), "par": hdrFields(parent.Header), "leaves": post.leaves, "refused": refused, "sibling": sibling,
 		"nrev": reverted, "stopped": stopTime(postSt) != math.MaxUint64, "split": split,
-		"supply": limbs(supply), "burnedNeg": burned.Sign() < 0, "burned": limbs(new(big.Int).Abs(burned))}
+		"supply": limbs(supply), "burnedNeg": burned.Sign() < 0, "burned": limbs(new(big.Int).Abs(burned)),
+		"flows": flows, "pct": int(pct.Int64()), "mined": mined}
 	if rcpts == nil {
 		ev["rcpts"] = []any{}
 	}
@@ -614,8 +771,22 @@ func runProfile(prof string, seed int64, blocks int, evs *[]trace.Ev) runStat {
 		x.Hayabusa, x.HayabusaTP, x.NoStakers = &hb, &tp, true
 		x.Periods = [3]uint32{6, 9, 12}
 		x.Cooldown = 3
+	case "evict":
+		// PoS from genesis; validator 2 never produces: it goes offline, is evicted, its stake becomes withdrawable
+		opt.PoS = true
+		x.Periods = [3]uint32{6, 9, 12}
+		x.Cooldown = 3
+		x.EvictAfter, x.EvictEvery = 6, 3
 	default:
 		harnessError("unknown profile %s", prof)
+	}
+	if x.EvictAfter == 0 {
+		x.EvictAfter, x.EvictEvery = 8640*7, 8640*3 // thor.SetConfig is process-global: restore the defaults explicitly
+	}
+	codeA, codeB := doubleSuicideCode(genesis.DevAccounts()[9].Address)
+	x.Accounts = []genesis.Account{
+		{Address: addrDA, Balance: (*genesis.HexOrDecimal256)(big.NewInt(5000)), Energy: (*genesis.HexOrDecimal256)(big.NewInt(3000)), Code: "0x" + hex.EncodeToString(codeA)},
+		{Address: addrDB, Balance: (*genesis.HexOrDecimal256)(big.NewInt(100000)), Energy: (*genesis.HexOrDecimal256)(big.NewInt(900000)), Code: "0x" + hex.EncodeToString(codeB)},
 	}
 	n := sim.NewNetX(opt, x)
 	defer n.Close()
@@ -639,6 +810,18 @@ func runProfile(prof string, seed int64, blocks int, evs *[]trace.Ev) runStat {
 			cycle := (i - 4) % 24
 			full = cycle >= 6 && cycle < 14
 		}
+		// the packer's target gas limit: the block gas limit drifts to values that are not multiples of 100
+		target := uint64(0)
+		switch {
+		case i >= 20:
+			target = 9_987_653
+		case i >= 5:
+			target = 9_999_937
+		}
+		g.limit = parent.Header.GasLimit()
+		if target != 0 {
+			g.limit = block.GasLimit(target).Qualify(parent.Header.GasLimit())
+		}
 		txs := g.blockTxs(parent, i, full)
 		if prof == "hayabusa" && i >= 7 && i <= 8 {
 			// validators stake by transactions during the transition period
@@ -649,6 +832,9 @@ func runProfile(prof string, seed int64, blocks int, evs *[]trace.Ev) runStat {
 			}
 		}
 		who := i % 3
+		if prof == "evict" {
+			who = i % 2
+		}
 		// the packer's beneficiary option: usually the validator; sometimes a frequent gas payer (dev 3), the delegator
 		// contract stand-in (dev 8), the energy contract or the universal contract (one address in two roles)
 		var benef *thor.Address
@@ -662,11 +848,15 @@ func runProfile(prof string, seed int64, blocks int, evs *[]trace.Ev) runStat {
 		case i > 8 && i%11 == 1 && g.U != nil:
 			benef = g.U
 		}
-		blk, receipts, refused, err := n.MintLooseTo(parent.Header.ID(), who, benef, false, 0, txs...)
+		mo := sim.MintOpt{Beneficiary: benef, TargetGasLimit: target}
+		blk, receipts, refused, err := n.MintLooseOpt(parent.Header.ID(), who, mo, false, 0, txs...)
 		if err != nil {
 			// the chosen validator may have no slot (PoS activation): try the others
 			for alt := 1; alt < 3 && err != nil; alt++ {
-				blk, receipts, refused, err = n.MintLooseTo(parent.Header.ID(), (who+alt)%3, benef, false, 0, txs...)
+				if prof == "evict" && (who+alt)%3 == 2 {
+					continue
+				}
+				blk, receipts, refused, err = n.MintLooseOpt(parent.Header.ID(), (who+alt)%3, mo, false, 0, txs...)
 			}
 			if err != nil {
 				harnessError("%s block %d: mint: %v", prof, i, err)
@@ -726,7 +916,11 @@ func runProfile(prof string, seed int64, blocks int, evs *[]trace.Ev) runStat {
 		// occasionally a sibling on the same parent by another validator with other content: same base fee required
 		if i > 4 && i%7 == 0 {
 			stxs := g.blockTxs(parent, i, false)
-			if sb, srec, sref, err := n.MintLoose(parent.Header.ID(), (who+1)%3, false, 0, stxs...); err == nil && sb.Header().ID() != blk.Header().ID() {
+			sw := (who + 1) % 3
+			if prof == "evict" {
+				sw = (who + 1) % 2
+			}
+			if sb, srec, sref, err := n.MintLooseOpt(parent.Header.ID(), sw, sim.MintOpt{TargetGasLimit: target}, false, 0, stxs...); err == nil && sb.Header().ID() != blk.Header().ID() {
 				if _, err := n.Nodes[0].Deliver(sb); err != nil {
 					harnessError("%s block %d: node refused a sibling: %v", prof, i, err)
 				}
@@ -746,7 +940,7 @@ func main() {
 	profiles := flag.String("profiles", "pre,boundary,post,pos", "comma separated profiles")
 	blocks := flag.Int("blocks", 30, "blocks per profile")
 	flag.Parse()
-	must(os.MkdirAll(*out, 0o755))
+	ioMust(os.MkdirAll(*out, 0o755))
 	var evs []trace.Ev
 	var stats []runStat
 	for _, p := range strings.Split(*profiles, ",") {
@@ -756,8 +950,8 @@ func main() {
 		e["seq"] = i
 	}
 	evs = append(evs, trace.Ev{"e": "End", "seq": len(evs), "count": len(evs)})
-	must(trace.WriteNDJSON(filepath.Join(*out, "trace.ndjson"), evs))
+	ioMust(trace.WriteNDJSON(filepath.Join(*out, "trace.ndjson"), evs))
 	sb, _ := json.Marshal(stats)
-	must(os.WriteFile(filepath.Join(*out, "runs.json"), sb, 0o644))
+	ioMust(os.WriteFile(filepath.Join(*out, "runs.json"), sb, 0o644))
 	fmt.Println(string(sb))
 }
